@@ -19,6 +19,15 @@ class Fault(Exception):
         self.ident = ident
 
 
+class BFault(BaseException):
+    """the same fault raised as something that is not an Exception (KeyboardInterrupt-like): teardown loops must
+    survive it too"""
+
+    def __init__(self, ident):
+        super().__init__(f"fault {ident}")
+        self.ident = ident
+
+
 class BodyError(Exception):
     pass
 
@@ -31,13 +40,14 @@ class Oracle:
         self.next_inst = 0
         self.hook = hook          # bit c set: class c's initialisation fault fires in the machine's init() hook
         self.held = {}            # class -> low-level resources acquired by _init_machine and not yet released
+        self.base_exc = False     # faults are raised as BaseException subclasses
 
     def check(self):
         ident = self.n
         self.n += 1
         b = self.bits.pop(0) if self.bits else False
         if b:
-            raise Fault(ident)
+            raise (BFault if self.base_exc else Fault)(ident)
 
 
 O = None
@@ -147,7 +157,7 @@ def prog_coq(p):
         return f"(CRaise {coq.boolean(p[1])})"
     if k == "try":
         return f"(CTry {prog_coq(p[1])})"
-    if k == "request":
+    if k in ("request", "hrequest"):
         return f"(CRequest {p[1]}%nat {coq.boolean(p[2])} {coq.boolean(p[3])} {optb(p[4])} {prog_coq(p[5])})"
     if k == "reconf":
         return f"(CReconf {optb(p[1])} {optb(p[2])} {prog_coq(p[3])})"
@@ -185,6 +195,20 @@ def run_prog(p, ctx, raised):
             run_prog(p[1], ctx, raised)
         except BaseException:
             pass
+    elif k == "hrequest":
+        # the handle API: `with ctx() as cx: m = cx.request(...)` -- the request is left when the handle's block ends,
+        # with the exception of the body (if any) in flight; for the model this is a request like any other
+        c = p[1]
+        entered = False
+        try:
+            with ctx() as cx:
+                m = cx.request(ROLES[c], reset=p[2], exclusive=p[3], reset_on_error=p[4])
+                entered = True
+                O.log.append([3, c, getattr(m, "_vid", -1)])
+                run_prog(p[5], ctx, raised)
+        finally:
+            if entered:
+                O.log.append([5, c])
     elif k == "request":
         c = p[1]
         entered = False
@@ -214,6 +238,7 @@ def run_prog(p, ctx, raised):
 def run_case(case):
     global O
     O = Oracle(case["faults"], case.get("hook", 0))
+    O.base_exc = bool(case.get("base_exc"))
     classes = build_classes(O)
     ctx = tbot.Context(keep_alive=case["ka"], reset_on_error_by_default=case["roe"])
     for cls, role in zip(classes, ROLES):
@@ -223,7 +248,7 @@ def run_case(case):
     with contextlib.redirect_stdout(io.StringIO()):
         try:
             run_prog(case["prog"], ctx, raised)
-        except Fault as f:
+        except (Fault, BFault) as f:
             outcome = [[3, f.ident]]
         except tbot.error.ContextError:
             outcome = [[4]]
@@ -280,3 +305,20 @@ def rand_prog(rng, depth, classes=(0, 1, 2, 3, 4)):
     if x < 0.95:
         return ["reconf", rng.choice([None, True, False]), rng.choice([None, True, False]), rand_prog(rng, depth - 1, classes)]
     return ["ctx", rand_prog(rng, depth - 1, classes)]
+
+
+def to_handle_api(p, rng, prob=0.6):
+    """the same program with some requests made through the handle API"""
+    k = p[0]
+    if k == "request":
+        return ["hrequest" if rng.random() < prob else "request", p[1], p[2], p[3], p[4], to_handle_api(p[5], rng, prob)]
+    if k == "hrequest":
+        return p
+    if k == "seq":
+        return ["seq", to_handle_api(p[1], rng, prob), to_handle_api(p[2], rng, prob)]
+    if k in ("try", "ctx"):
+        return [k, to_handle_api(p[1], rng, prob)]
+    if k == "reconf":
+        return ["reconf", p[1], p[2], to_handle_api(p[3], rng, prob)]
+    return p
+
